@@ -387,8 +387,13 @@ template<typename A>
 auto cpc_compressor<A>::uncompress_surprising_values(const uint32_t* data, uint32_t data_words, uint32_t num_pairs,
     uint8_t lg_k, const A& allocator) const -> vector_u32 {
   const uint32_t k = 1 << lg_k;
-  vector_u32 pairs(num_pairs, 0, allocator);
   const uint8_t num_base_bits = golomb_choose_number_of_base_bits(k + num_pairs, num_pairs);
+  // each pair takes at least 2 + num_base_bits bits: num_pairs must be backed by the data
+  if (static_cast<uint64_t>(num_pairs) * (2 + num_base_bits) > static_cast<uint64_t>(data_words) * 32) {
+    throw std::out_of_range("number of table entries " + std::to_string(num_pairs) + " is too large for "
+        + std::to_string(data_words) + " words of table data");
+  }
+  vector_u32 pairs(num_pairs, 0, allocator);
   low_level_uncompress_pairs(pairs.data(), num_pairs, num_base_bits, data, data_words);
   for (uint32_t i = 0; i < num_pairs; i++) {
     if ((pairs[i] >> 6) >= k) throw std::out_of_range("row index out of range for lg_k " + std::to_string(lg_k));
